@@ -31,6 +31,7 @@ func runC22(tr *vh.Trace, rnd *rand.Rand, nscen, nq int) {
 		g := &Gen{rnd: rnd, sc: sc, nview: &nview}
 		var qs []*Q
 		musts := map[string][][]string{}
+		wants := map[string][][]string{}
 		for i := 0; i < nq; i++ {
 			d := 1 + rnd.Intn(3)
 			if rnd.Intn(10) == 0 {
@@ -42,6 +43,7 @@ func runC22(tr *vh.Trace, rnd *rand.Rand, nscen, nq int) {
 				continue
 			}
 			qs = append(qs, q)
+			addWants(wants, q)
 			need := map[string][]string{}
 			q.needs(need)
 			for t, k := range need {
@@ -67,7 +69,7 @@ func runC22(tr *vh.Trace, rnd *rand.Rand, nscen, nq int) {
 			results[i] = &res{first: map[string]*Outcome{}, count: map[string]int{}, conf: map[string]string{}}
 		}
 		for c := 0; c < nschemas; c++ {
-			d := buildDB(rnd, sc, musts)
+			d := buildDB(rnd, sc, musts, wants)
 			for i, q := range qs {
 				d.defineViews(q)
 				text := q.text()
@@ -131,4 +133,14 @@ func viewDefs(q *Q) []string {
 		r = append(r, v.Name+" = "+v.Def.text())
 	}
 	return r
+}
+
+func addWants(wants map[string][][]string, q *Q) {
+	w := map[string][]string{}
+	q.wants(w)
+	for t, ix := range w {
+		if len(wants[t]) < 2 {
+			wants[t] = append(wants[t], ix)
+		}
+	}
 }
